@@ -60,6 +60,8 @@ type WorldSpec struct {
 	Users   map[string]*User
 	KeyGen  int // index into c15Keys
 	KeyFail int // number of upcoming GetResponseSigningKey calls that fail
+	// the last genuinely signed SSO request per service provider: (SAMLRequest, Signature, host) - for replays
+	LastSigned map[int][3]string
 }
 
 var c15Keys []*KeyPair
@@ -166,8 +168,22 @@ func (w *WorldSpec) mkSSO(host string, spi int, marker, variant string, hosts []
 	}
 	payload := deflateB64(a.XML())
 	q := url.Values{"SAMLRequest": {payload}, "RelayState": {relay}}
+	if variant == "signed-replay-swapped" {
+		// an earlier, genuinely signed and accepted request is replayed with another RelayState
+		if ls, ok := w.LastSigned[spi%len(w.SPs)]; ok {
+			q = url.Values{"SAMLRequest": {ls[0]}, "RelayState": {"rs-replayed-" + marker}, "SigAlg": {algRSASHA256}, "Signature": {ls[1]}}
+			return c15Req{Kind: "sso", Host: ls[2], SP: spi, Marker: marker, Variant: variant, HTTP: HTTPReq{Method: "GET", Path: "/SSO", Host: ls[2], Query: q.Encode()}}
+		}
+		variant = "signed"
+	}
 	if variant == "signed" || variant == "signed-relay-swapped" {
 		_, sig := signRedirect(spKeys.Key, payload, relay, algRSASHA256, 0)
+		if variant == "signed" {
+			if w.LastSigned == nil {
+				w.LastSigned = map[int][3]string{}
+			}
+			w.LastSigned[spi%len(w.SPs)] = [3]string{payload, sig, host}
+		}
 		if variant == "signed-relay-swapped" {
 			relay = "rs-swapped-" + marker
 		}
@@ -418,7 +434,7 @@ func c15RandomOp(rng *Rng, w *WorldSpec, n int) c15Op {
 	var rq c15Req
 	switch k := rng.intn(10); {
 	case k < 4:
-		v := []string{"plain", "dest-own", "dest-other", "signed", "signed-relay-swapped", "bind-post", "bind-unlisted"}[rng.intn(7)]
+		v := []string{"plain", "dest-own", "dest-other", "signed", "signed-relay-swapped", "bind-post", "bind-unlisted", "signed-replay-swapped", "signed"}[rng.intn(9)]
 		rq = w.mkSSO(host, rng.intn(2), marker, v, hosts)
 	case k < 6:
 		var ids []string
